@@ -887,11 +887,14 @@ impl<'a> Rnd<'a> {
 }
 
 fn gen_idx(len: usize, r: &mut Rnd) -> Idx {
-    match r.below(8) {
-        0 | 1 | 2 => Idx::At(derive_index(len, r.next()).clamp(i32::MIN as i64, i32::MAX as i64) as i32),
-        3 | 4 => Idx::Last(0),
-        5 => Idx::Last(-(r.below(len + 2) as i32)),
-        6 => Idx::Last(r.below(3) as i32),
+    match r.below(12) {
+        // in range most of the time, so that later steps have something to work on
+        0..=3 if len > 0 => Idx::At(r.below(len) as i32),
+        4 | 5 => Idx::At(derive_index(len, r.next()).clamp(i32::MIN as i64, i32::MAX as i64) as i32),
+        6 | 7 => Idx::Last(0),
+        8 if len > 0 => Idx::Last(-(r.below(len) as i32)),
+        9 => Idx::Last(-(r.below(len + 2) as i32)),
+        10 => Idx::Last(r.below(3) as i32),
         _ => Idx::Last(match r.below(4) {
             0 => i32::MAX,
             1 => -i32::MAX,
@@ -904,7 +907,9 @@ fn gen_idx(len: usize, r: &mut Rnd) -> Idx {
 fn gen_field(names: &[String], r: &mut Rnd) -> Step {
     let form = [FieldForm::Dot, FieldForm::Dot, FieldForm::Colon, FieldForm::Bracket][r.below(4)];
     let extra = NAMES[r.below(NAMES.len())];
-    let name = derive_name(names, r.next(), r.next(), extra);
+    // an existing key most of the time
+    let mode = if r.below(10) < 7 { 0 } else { r.next() };
+    let name = derive_name(names, r.next(), mode, extra);
     Step::Field(form, name)
 }
 
